@@ -148,7 +148,11 @@ def soakBound (rules : List Rule) (g : Int) (G : Nat) (b : UInt32) : Int :=
 
 inductive Op
   | load (rs : List (String × UInt32))
-  | loadres (res : String) (ths : List UInt32)     -- `LoadRulesOfResource` (`[]` = `ClearRulesOfResource`)
+  | loadres (scratch : Bool) (res : String) (ths : List UInt32)
+      -- `LoadRulesOfResource` (`[]` = `ClearRulesOfResource`); `scratch`: through the caller's one reused slice (`sloadres`)
+  | poke (res : String) (idx : Nat) (thr : UInt32) -- the caller edits `Threshold` of a loaded (valid) rule object in place
+  | getrules (res : String)                        -- `GetRulesOfResource`
+  | getall                                         -- `GetRules`
   | entry (id : Nat) (res : String) (b : UInt32)
   | exit (id : Nat)
   | conc (res : String)
@@ -163,12 +167,19 @@ inductive Out
   | dup
   | val (g : Int)
   | sched (th : List Pc) (mx : Int)
+  | rules (rs : List Rule)
+  | allrules (rs : List (String × Rule))
   | soak (bound : Int)       -- everything has exited again (state unchanged); the gauge never exceeded `bound`
 deriving Repr, DecidableEq
 
 /-- `LoadRules`: valid rules in load order, tagged with their position -/
 def loadRules (rs : List (String × UInt32)) : List (String × Rule) :=
   rs.zipIdx.filterMap fun p => if p.1.2 ≠ 0 ∧ p.1.1 ≠ "" then some (p.1.1, { idx := p.2, thr := p.1.2 }) else Option.none
+
+/-- the rule manager keeps the caller's `*Rule` objects (only the slices are its own): an in-place edit of the threshold of a
+    loaded rule object is seen by `checkPass` (as the code has it; the harness only edits valid rules, to non-zero values) -/
+def pokeRules (rules : List (String × Rule)) (res : String) (idx : Nat) (thr : UInt32) : List (String × Rule) :=
+  rules.map fun p => if p.1 = res ∧ p.2.idx = idx then (p.1, { p.2 with thr := thr }) else p
 
 def rulesOf (rules : List (String × Rule)) (res : String) : List Rule :=
   (rules.filter fun p => p.1 = res).map (·.2)
@@ -177,6 +188,41 @@ def rulesOf (rules : List (String × Rule)) (res : String) : List Rule :=
     within that list); an empty or all-invalid list leaves `res` without rule; every other resource keeps its rules -/
 def loadResRules (rules : List (String × Rule)) (res : String) (ths : List UInt32) : List (String × Rule) :=
   (rules.filter fun p => p.1 ≠ res) ++ loadRules (ths.map fun t => (res, t))
+
+/-! ### `currentRules` and the caller's slice: the fixed finding `loadres-raw-slice-alias` (repaired by `26e3af6`)
+
+Before the repair `LoadRulesOfResource` stored the **caller's slice** in `currentRules[res]`, the list its "unchanged" shortcut compares
+the next load with; a caller reusing one slice for successive calls had a reload of `res` with the same number of rules compared with
+itself and **ignored**.  `rmLoadResOld` keeps that behaviour as documentation (only the witness theorem is about it): `raw` = content of
+`currentRules` for the resources whose entry is not the caller's slice, `ali` = for the others the length of the stored slice header.
+Since the repair every call stores a copy, the shortcut only fires for genuinely equal lists, and the executed model is simply
+`loadResRules` (every `LoadRulesOfResource` call takes effect). -/
+
+def rawRules (rs : List (String × UInt32)) : List (String × Rule) :=
+  rs.zipIdx.map fun p => (p.1.1, { idx := p.2, thr := p.1.2 })
+
+def aliasOf (alias : List (String × Nat)) (res : String) : Option Nat := (alias.find? fun p => p.1 = res).map (·.2)
+
+structure RM where
+  rules : List (String × Rule)
+  raw   : List (String × Rule)
+  ali   : List (String × Nat)
+
+/-- `LoadRulesOfResource(res, rules)` as the code had it **before `26e3af6`** (`scratch`: through the caller's one reused slice) -/
+def rmLoadResOld (m : RM) (scratch : Bool) (res : String) (ths : List UInt32) : RM :=
+  let store (al : List (String × Nat)) : RM :=
+    { rules := loadResRules m.rules res ths,
+      raw := (m.raw.filter fun p => p.1 ≠ res) ++ rawRules (ths.map fun t => (res, t)),
+      ali := al }
+  let noAlias := m.ali.filter fun p => p.1 ≠ res
+  if ths.isEmpty then store noAlias                              -- clear branch
+  else if !scratch then store noAlias                            -- a fresh caller slice, never touched again
+  else match aliasOf m.ali res with
+    | some k => if k = ths.length then m                         -- compared with itself: "unchanged", the load is ignored
+                else store ((res, ths.length) :: noAlias)
+    | none =>
+      if rulesOf m.raw res = (rawRules (ths.map fun t => (res, t))).map (·.2) then m    -- genuinely unchanged: the old slice stays
+      else store ((res, ths.length) :: noAlias)
 
 structure St where
   rules : List (String × Rule) := []
@@ -193,7 +239,10 @@ def schedHandles (id0 : Nat) (res : String) (th : List Pc) : List (Nat × String
 
 def step (s : St) : Op → St × Out
   | .load rs => ({ s with rules := loadRules rs }, .none)
-  | .loadres res ths => ({ s with rules := loadResRules s.rules res ths }, .none)
+  | .loadres _ res ths => ({ s with rules := loadResRules s.rules res ths }, .none)     -- whatever slice the caller used
+  | .poke res idx thr => ({ s with rules := pokeRules s.rules res idx thr }, .none)
+  | .getrules res => (s, .rules (rulesOf s.rules res))
+  | .getall => (s, .allrules s.rules)
   | .entry id res b =>
     if isLive s.live id then (s, .dup) else
     match checkPass (rulesOf s.rules res) (s.gauge res) b with
@@ -223,13 +272,17 @@ def run (s : St) : List Op → St × List Out
 
 structure SpecSt where
   rules : List (String × Rule) := []
+  ideal : List (String × Rule) := []        -- what the latest loads say (every load takes effect): the claim of the property
   live  : List (Nat × String) := []
 
 def inflight (live : List (Nat × String)) (res : String) : Nat := live.countP (·.2 = res)
 
 def specStep (s : SpecSt) : Op → SpecSt × Out
-  | .load rs => ({ s with rules := loadRules rs }, .none)
-  | .loadres res ths => ({ s with rules := loadResRules s.rules res ths }, .none)
+  | .load rs => ({ s with rules := loadRules rs, ideal := loadRules rs }, .none)
+  | .loadres _ res ths => ({ s with rules := loadResRules s.rules res ths, ideal := loadResRules s.ideal res ths }, .none)
+  | .poke res idx thr => ({ s with rules := pokeRules s.rules res idx thr, ideal := pokeRules s.ideal res idx thr }, .none)
+  | .getrules res => (s, .rules (rulesOf s.rules res))
+  | .getall => (s, .allrules s.rules)
   | .entry id res b =>
     if isLive s.live id then (s, .dup) else
     match specCheck (rulesOf s.rules res) (inflight s.live res) b with
